@@ -191,3 +191,18 @@ Proof.
     destruct (run_history acore x' cs) as [y rs]. destruct (run_history acore x' (drop_writes cs)) as [y2 rs2]. cbn [fst] in *. exact IH.
 Qed.
 End WriteReadOnly.
+
+(* ---- kalign_free_msa forgets: after CFree h the handle holds nothing, whatever it held before; so, walking a history backwards
+   for the calls an object was built by, the walk can stop following h at a CFree h ------------------------------------------- *)
+Section FreeForgets.
+Variable acore : ambient -> Z -> params -> list (list Z) -> list (list Z) -> list (list nat).
+Lemma step_free_forgets x y h :
+  (forall h', h' <> h -> snd x h' = snd y h') ->
+  snd (step acore x (CFree h)) = snd (step acore y (CFree h)) /\
+  forall h', snd (fst (step acore x (CFree h))) h' = snd (fst (step acore y (CFree h))) h'.
+Proof.
+  destruct x as [G s], y as [G' s']. cbn [snd fst step]. intros H. split; [reflexivity|].
+  intros h'. unfold upd. destruct (Nat.eqb_spec h' h) as [->|N]; [rewrite ?Nat.eqb_refl; reflexivity|].
+  destruct (Nat.eqb h h') eqn:E; [apply Nat.eqb_eq in E; congruence|]. apply H. exact N.
+Qed.
+End FreeForgets.
